@@ -15,3 +15,11 @@ package graph
 //@   pure
 //@   ensures result0 != nil
 //@   ensures vset(result0) != 0 && (vset(ctx) != 0 ==> vset(result0) == vset(ctx))
+
+// ForkVisited: a context with a copy of the visited set (its own set object); no set stays no set
+//@ func ForkVisited
+//@   trusted
+//@   pure
+//@   ensures result != nil
+//@   ensures vset(ctx) == 0 ==> vset(result) == 0
+//@   ensures vset(ctx) != 0 ==> vset(result) != 0 && vset(result) != vset(ctx)
